@@ -12,6 +12,9 @@ pub struct Case {
     pub g: GenLine,
     pub a: usize,
     pub b: usize,
+    /// order of the two separator setters on the re-configured calculator: bit 0 for A, bit 1 for B (set = thousands first)
+    #[serde(default)]
+    pub order: u8,
 }
 
 pub struct Separators;
@@ -70,8 +73,12 @@ impl Prop for Separators {
         // denotes depends on the configuration in force, not on anything read before
         let mut reconfigured = false;
         if acc.ok() {
-            let (ca, cb) = (c.g.cfg(da, ta), c.g.cfg(db, tb));
-            let steps: [(&crate::common::Cfg, &str, Option<&crate::common::EvalOut>); 5] = [(&ca, &text_a, Some(&oa)), (&cb, &text_a, None), (&cb, &text_b, Some(&ob)), (&ca, &text_b, None), (&ca, &text_a, Some(&oa))];
+            let (mut ca, mut cb) = (c.g.cfg(da, ta), c.g.cfg(db, tb));
+            ca.order = c.order & 1;
+            cb.order = (c.order >> 1) & 1;
+            // the sequence starts from the library's default configuration, so that a case is self-contained
+            let start = crate::common::Cfg::default();
+            let steps: [(&crate::common::Cfg, &str, Option<&crate::common::EvalOut>); 6] = [(&start, "1", None), (&ca, &text_a, Some(&oa)), (&cb, &text_a, None), (&cb, &text_b, Some(&ob)), (&ca, &text_b, None), (&ca, &text_a, Some(&oa))];
             for (k, (cfg, text, expect)) in steps.iter().enumerate() {
                 match w.eval_reconfigured(cfg, &c.g.lang, text) {
                     Ok(o) => {
@@ -148,7 +155,7 @@ impl Prop for Separators {
 }
 
 pub fn case_strategy() -> impl Strategy<Value = Case> {
-    (any_line(), 0usize..4, 1usize..4).prop_map(|(g, a, d)| Case { g, a, b: (a + d) % 4 })
+    (any_line(), 0usize..4, 1usize..4, 0u8..4).prop_map(|(g, a, d, order)| Case { g, a, b: (a + d) % 4, order })
 }
 
 pub fn regressions() -> Vec<Case> {
@@ -157,10 +164,10 @@ pub fn regressions() -> Vec<Case> {
     let mut out = vec![];
     for (a, b) in [(0usize, 1usize), (1, 0), (0, 2), (3, 1)] {
         // F70: 1 inch to mm, 1 km to mile, 2,5 km to m
-        out.push(Case { g: GenLine::simple(conv(1.0, "inch", "mm"), "C12"), a, b });
-        out.push(Case { g: GenLine::simple(conv(1.0, "km", "mile"), "C12"), a, b });
-        out.push(Case { g: GenLine::simple(conv(2.5, "km", "m"), "C12"), a, b });
-        out.push(Case { g: GenLine::simple(conv(1234.5, "g", "lb"), "C12"), a, b });
+        out.push(Case { g: GenLine::simple(conv(1.0, "inch", "mm"), "C12"), a, b, order: 0 });
+        out.push(Case { g: GenLine::simple(conv(1.0, "km", "mile"), "C12"), a, b, order: 0 });
+        out.push(Case { g: GenLine::simple(conv(2.5, "km", "m"), "C12"), a, b, order: 0 });
+        out.push(Case { g: GenLine::simple(conv(1234.5, "g", "lb"), "C12"), a, b, order: 0 });
     }
     out
 }
